@@ -334,6 +334,9 @@ pub fn run(ctx: &Ctx) -> i32 {
     }
     let n_res: u64 = ctx.pick(1 << 20, 1 << 23);
     execs += resolution_check(ctx, n_res);
+    // orders and repetitions of {x, y} where x is a rounding witness of the f32 SuperMinHash (see c03::same_set_streams)
+    let (wevals, wdetails) = crate::props::c03::same_set_streams(ctx, (crate::common::splitmix64(ctx.seed ^ 0xC04) >> 24) << 3, "set-semantics:rounding-witness");
+    execs += wevals;
     println!("C04 kinds={} executions={} item-set groups={} distinct sketches={}", kinds.len(), execs, groups, distinct);
     let coverage = json!({
         "states": distinct,
@@ -347,7 +350,8 @@ pub fn run(ctx: &Ctx) -> i32 {
         "exhaustive": true,
         "evaluations": execs,
         "distinct_nontrivial": distinct,
-        "rule": "for SuperMinHash f32/f64, SuperMinHash2 u32/u64, SetSketcher u8/u16/u32 (3 parameter sets) and both densified sketchers f32/f64 (Fnv hasher; plus no-op-hasher kinds where item 0 hashes to 0), sizes {1,2,3,7,64} (+5,16,200): every stream of length 1..5 (6) over 5 (6) symbols (4-5 items and a burst of 12 fresh items), i.e. every order and every repetition, under item-wise calls, every chunking into slice calls (all 2^(L-1) cut patterns) and item-wise calls interleaved with empty slices; densified sketchers: item-wise + end_sketch versus one slice; all streams with the same set of distinct items must give the bit-identical observation (all views); stored hashes must be hashes of streamed items; the random value deciding the owner of a position must be distinct for all 2^20 (2^23) items of a block (size-1 sketches, hook H5 for SuperMinHash2); distinct = distinct sketches (one per item set and kind)",
+        "rule": "for SuperMinHash f32/f64, SuperMinHash2 u32/u64, SetSketcher u8/u16/u32 (3 parameter sets) and both densified sketchers f32/f64 (Fnv hasher; plus no-op-hasher kinds where item 0 hashes to 0), sizes {1,2,3,7,64} (+5,16,200): every stream of length 1..5 (6) over 5 (6) symbols (4-5 items and a burst of 12 fresh items), i.e. every order and every repetition, under item-wise calls, every chunking into slice calls (all 2^(L-1) cut patterns) and item-wise calls interleaved with empty slices; densified sketchers: item-wise + end_sketch versus one slice; all streams with the same set of distinct items must give the bit-identical observation (all views); stored hashes must be hashes of streamed items; the random value deciding the owner of a position must be distinct for all 2^20 (2^23) items of a block (size-1 sketches, hook H5 for SuperMinHash2); for m in {4,8,12,16,32}: 7 repeating / reordering streams of {x,y} against [x,y] for every x among up to 48 rounding witnesses of the f32 SuperMinHash (items with a single-item value that is an exact integer, found by scanning 2^20 (2^22) items) and y from a 64-item block; distinct = distinct sketches (one per item set and kind)",
+        "rounding_witness_streams": wdetails,
         "sketcher_kinds": kinds.len(),
         "item_set_groups": groups,
         "per_kind": per_kind,
